@@ -154,8 +154,14 @@ def d1_markers(ctx, idx, fam):
                 continue
             tab = fam.tables[q]
             if tab is None:
+                own = 'schema_config' in ci.attrs or 'schema_config' in ci.methods
+                has_abstract = any('abstractmethod' in d or 'abstractproperty' in d for f in ci.methods.values() for d in f.decorators)
                 if q in ABSTRACT:
                     n_abs += 1
+                elif not own and has_abstract:
+                    # a new abstract base that only inherits the abstract schema_config: nothing to validate, it cannot be instantiated
+                    n_abs += 1
+                    r.note('%s: abstract base without an own schema_config (not instantiable), tolerated' % q)
                 else:
                     r.undecided(q + '.schema_config', 'class has no concrete schema_config and is not a reviewed abstract class', ci.loc)
                 continue
@@ -1361,17 +1367,38 @@ def d6_helpers(ctx, idx, fam):
             r.check(wraps, '%s [singleton]' % helper, 'a single value is wrapped into a %s' % container,
                     '%s no longer wraps a single value into a %s: the documented single-value form is refused' % (helper, container), f.loc)
             schemas = [c for c in walk_own(f.node) if isinstance(c, ast.Call) and nf.callee_name(c) == 'Schema']
-            bad = []
+            all_lens = [c for c in walk_own(f.node) if isinstance(c, ast.Call) and nf.callee_name(c) == 'Length']
+            wrong = [c for c in all_lens if nv(ev.eval(c, tables.Scope(vmod))) != ('Length', 1, INF)]
+            from ..index import local_names as _ln
+            local_names = set(_ln(f.node)) - set(f.all_params)
+            definite, unknown = [], []
             for sc in schemas:
-                lens = [c for c in ast.walk(sc) if isinstance(c, ast.Call) and nf.callee_name(c) == 'Length']
-                if len(lens) != 1 or nv(ev.eval(lens[0], tables.Scope(vmod))) != ('Length', 1, INF):
-                    bad.append(sc)
+                inside = [c for c in ast.walk(sc) if isinstance(c, ast.Call) and nf.callee_name(c) == 'Length']
+                if inside:
+                    continue
+                # the checks may be assembled in a local (list of steps, later unpacked with *)
+                refs = {n.id for n in ast.walk(sc) if isinstance(n, ast.Name) and n.id in local_names}
+                via_local = False
+                for name in refs:
+                    for val in lib.assigned_value(f.node, name):
+                        if any(isinstance(c, ast.Call) and nf.callee_name(c) == 'Length' for c in ast.walk(val)):
+                            via_local = True
+                if via_local:
+                    continue
+                (unknown if refs or any(isinstance(n, ast.Starred) for n in ast.walk(sc)) else definite).append(sc)
+            construct = '%s [non-empty]' % helper
             if not schemas:
-                r.undecided('%s [non-empty]' % helper, 'no Schema call found', f.loc)
+                r.undecided(construct, 'no Schema call found', f.loc)
+            elif wrong:
+                r.violation(construct, '%s restricts the length with `%s` instead of Length(min=1): an empty %s is accepted (or valid ones '
+                            'refused)' % (helper, short(wrong[0]), container), lib.loc(f, wrong[0]), expected='Length(min=1)', found=short(wrong[0]))
+            elif definite:
+                r.violation(construct, '%s accepts an empty %s: the schema `%s` has no Length(min=1)' % (helper, container, short(definite[0])),
+                            lib.loc(f, definite[0]), expected='Length(min=1)')
+            elif unknown:
+                r.undecided(construct, 'cannot see whether `%s` includes Length(min=1)' % short(unknown[0]), lib.loc(f, unknown[0]))
             else:
-                r.check(not bad, '%s [non-empty]' % helper, 'Length(min=1) in all %d schema variants' % len(schemas),
-                        '%s accepts an empty %s (or restricts the length differently): `%s`' % (helper, container, short(bad[0]) if bad else ''),
-                        lib.loc(f, bad[0]) if bad else f.loc, expected='Length(min=1)')
+                r.ok(construct, 'Length(min=1) in all %d schema variant(s)' % len(schemas), f.loc)
         # PercentageString
         ps = idx.func(VFQ + 'PercentageString')
         negs = [n for n in walk_own(ps.node) if isinstance(n, ast.If) and any(isinstance(s, ast.Raise) and
@@ -1733,10 +1760,11 @@ def d7_answers(ctx, idx, fam):
         if len(recs) != 1:
             r.violation('ItemGrader.validate_single_answer [ok]', "'ok' is no longer computed from grade_decimal", vs.loc)
         else:
-            res = nf.classify("_V['ok'] == 'computed' or _V['grade_decimal'] != 1", recs[0].test)
+            res = nf.classify("_V['ok'] == 'computed' or _V['grade_decimal'] != 1", lib.inline_locals(recs[0].test, vs.node, depth=2))
             st = [s for s in recs[0].body if isinstance(s, ast.Assign) and lib.subscript_key(s.targets[0]) == 'ok'][0]
+            st_value = lib.inline_locals(st.value, vs.node, depth=2)
             val_ok = nf.classify(["self.grade_decimal_to_ok(_V['grade_decimal'])", "ItemGrader.grade_decimal_to_ok(_V['grade_decimal'])",
-                                  "AbstractGrader.grade_decimal_to_ok(_V['grade_decimal'])"], st.value) == nf.MATCH
+                                  "AbstractGrader.grade_decimal_to_ok(_V['grade_decimal'])"], st_value) == nf.MATCH
             if res == nf.MATCH and val_ok:
                 r.ok('ItemGrader.validate_single_answer [ok]', "recomputed when 'computed' or grade_decimal != 1", lib.loc(vs, recs[0]))
             elif isinstance(res, tuple):
